@@ -200,6 +200,35 @@ def config_ccode(run):
         run.findings.append(Finding(ob.name, "config", bad[0], {"language": "python", "inputs": {"cases": [repr(c) for c in cases]}, "oracle_verdict": bad}, True))
 
 
+def config_max_dt_literal(run, pid):
+    """cpp.Config.ccode(): the generated `Tag::max_dt_sec` constant must be EXACTLY the configured step (the C++ runtime steps by it and
+    ManagedFilter::compatible requires it to be > 0).  Native, finite cases incl. steps needing more than 6 decimals."""
+    from replay.native import repo_import
+
+    cpp = repo_import("formak.cpp")
+    cases = [0.1, 0.05, 0.25, 1.0 / 3.0, 1.5e-06, 2.5e-07, 1e-09, 123.456789012345, 3]
+    bad = []
+    for v in cases:
+        try:
+            with cppgen.repo_cwd():
+                txt = "\n".join(cpp.Config(max_dt_sec=v).ccode().compile(cpp.CompileState(indent=2)))
+        except Exception as e:
+            bad.append(f"Config(max_dt_sec={v!r}).ccode() raised {type(e).__name__}")
+            continue
+        m = re.search(r"static constexpr double max_dt_sec = ([^;]+);", txt)
+        try:
+            lit = float(m.group(1)) if m else None
+        except ValueError:
+            lit = None
+        if lit is None or lit != float(v):
+            bad.append(f"Config(max_dt_sec={v!r}) is emitted as `{m.group(1) if m else None}` ({lit!r}): the C++ runtime would step by a different maximum than configured")
+    run.native_runs += len(cases)
+    ob = run.prove(f"{pid}.cxxgen.Config.ccode.max_dt_sec_literal_is_exact", [], z3.BoolVal(not bad), function="py/formak/cpp.py:Config.ccode (native, finite cases)")
+    run.bounded.append({"what": "cpp.Config.ccode prints max_dt_sec so that the C++ constant equals the configured float exactly", "bound": f"{len(cases)} values (incl. 1.5e-06, 2.5e-07, 1e-09, 1/3)", "failures": len(bad), "counted_as_proved": False})
+    if bad:
+        run.findings.append(Finding(ob.name, "config", bad[0], {"language": "python", "inputs": {"config_literal": True}, "oracle_verdict": bad}, True))
+
+
 def wiring_problems(sc, header):
     """Type wiring the templated code relies on, per program: Reading::SensorModel, matrix sizes, identifiers."""
     problems = []
